@@ -9,6 +9,7 @@ pub mod c10;
 pub mod c11;
 pub mod c12;
 pub mod c13;
+pub mod c14;
 
 pub struct Property {
     pub id: &'static str,
@@ -27,6 +28,7 @@ pub fn all() -> Vec<Property> {
         Property { id: "C11", run: c11::run, replays: c11::replays },
         Property { id: "C12", run: c12::run, replays: c12::replays },
         Property { id: "C13", run: c13::run, replays: c13::replays },
+        Property { id: "C14", run: c14::run, replays: c14::replays },
     ]
 }
 
